@@ -871,3 +871,6 @@ v('C12', 'plain-document-copy-stops-at-an-engine-entry', 'c12.plain-document', (
 			break
 		}
 		copy[key] = value"""))
+v('C18', 'daterange-upper-bound-under-the-lower-bounds-test', 'go.nil-test-sibling/indexed', (F, """	if args[1] != nil {
+		to = TextOf(args[1])""", """	if args[0] != nil {
+		to = TextOf(args[1])"""))
